@@ -60,7 +60,10 @@ def body(run):
             continue      # big windows are expensive inside Coq: one per quick run, the rest go to the explicit-loop oracle only
         cases.append(ik.encode(c['model'], c['kshape'], c['thresh'], c['src'], c['ref'], out))
         metas.append(desc)
-    failing, nt = run.corr('fit', 'Corr.CheckC01', cases, shard=60)
+    # one evaluation per case gives both answers; shards are formed by estimated cost (pixels x kernel area; ~2000 units per second)
+    def cost(c):
+        return c[8] * c[9] * c[1] * c[2] * (1.5 if c[4] else 1.0)
+    failing, nt = run.corr('fit', 'Corr.CheckC01', cases, shard=60, both='check_nt', cost=cost, budget=150000.0)
     for k in failing[:5]:
         run.add_break('correspondence-break', 'KernelModel.fit differs from Kernel.Fit.fit_px beyond the derived float32 bound', metas[k])
     run.cov['rule'] = ('seeded block pairs (1..12 px quick / 1..24 thorough) with integer data scaled so float32 box sums are exact, '
